@@ -1458,6 +1458,8 @@ func r12HandedBackReset(c *RuleCtx) {
 		what := "every *" + cd.sn + " that " + funcShortName(cd.fn) + " hands back is nil, fresh, a sentinel, or the caller's object after it was zeroed as a whole"
 		if clean(cd.fn) {
 			c.okP(reusable[cd.sn], key, c.fpos(cd.fn), what)
+		} else if r12OnlyFedBack(c.p, cd.fn, cd.prm, cd.res) {
+			c.okP(reusable[cd.sn], key, c.fpos(cd.fn), "what "+funcShortName(cd.fn)+" hands back is a scratch object that its callers only hand in again (nobody reads a result out of it)")
 		} else {
 			pos := c.fpos(cd.fn)
 			if w := witness[cd.fn]; w != nil {
@@ -1468,4 +1470,70 @@ func r12HandedBackReset(c *RuleCtx) {
 		}
 	}
 	c.add(statusOf(n >= half(6)), "handed-back-reset/sites", "-", "functions that take a reusable object and hand one back are found (pinned tree: 8)", fmt.Sprintf("found %d", n), []string{"C07", "C12", "C06", "C13"}, nil)
+}
+
+// r12OnlyFedBack: at every call site of fn (an unexported function with callers in the package) the
+// result res is used for nothing but being handed in again as the same parameter (through phis), or being
+// compared with nil: it is scratch space threaded through the calls, not an answer.
+func r12OnlyFedBack(p *Program, fn *ssa.Function, prm *ssa.Parameter, res int) bool {
+	if fn.Object() == nil || fn.Object().Exported() {
+		return false
+	}
+	idx := -1
+	for i, q := range fn.Params {
+		if q == prm {
+			idx = i
+		}
+	}
+	sites := p.callersOf(fn)
+	if idx < 0 || len(sites) == 0 {
+		return false
+	}
+	for _, cs := range sites {
+		call, ok := cs.(*ssa.Call)
+		if !ok || !p.InZap(cs.Parent()) {
+			return false
+		}
+		v := extractOf(call, res)
+		if v == nil {
+			continue
+		}
+		seen := map[ssa.Value]bool{}
+		var only func(v ssa.Value) bool
+		only = func(v ssa.Value) bool {
+			if seen[v] {
+				return true
+			}
+			seen[v] = true
+			for _, r := range *v.Referrers() {
+				switch x := r.(type) {
+				case *ssa.DebugRef:
+				case *ssa.Phi:
+					if !only(x) {
+						return false
+					}
+				case *ssa.BinOp:
+					if !(isNilConst(x.X) || isNilConst(x.Y)) {
+						return false
+					}
+				case *ssa.Call:
+					if x.Call.StaticCallee() != fn || idx >= len(x.Call.Args) || x.Call.Args[idx] != v {
+						return false
+					}
+					for j, a := range x.Call.Args {
+						if j != idx && a == v {
+							return false
+						}
+					}
+				default:
+					return false
+				}
+			}
+			return true
+		}
+		if !only(v) {
+			return false
+		}
+	}
+	return true
 }
